@@ -175,6 +175,8 @@ class Result:
         self.sample_smt = None
         self.pc_unknown = 0
         self.skipped = 0
+        self.tmax = 0.0
+        self.by_cvc5 = 0
 
     @property
     def status(self):
@@ -188,8 +190,8 @@ class Result:
 
     def to_json(self):
         return {"name": self.name, "status": self.status, "instances": self.instances, "discharged": self.discharged,
-                "vacuous": self.vacuous, "failed": self.failed[:3], "unknown": self.unknown[:3], "solver_s": round(self.time, 3),
-                "backend": "z3-" + z3.get_version_string()}
+                "vacuous": self.vacuous, "failed": self.failed[:3], "unknown": self.unknown[:3], "solver_s": round(self.time, 3), "solver_max_s": round(self.tmax, 3),
+                "backend": "z3-" + z3.get_version_string() + (f" (+{self.by_cvc5} by cvc5 --finite-model-find)" if self.by_cvc5 else "")}
 
 
 def model_text(m, limit=40):
@@ -293,7 +295,7 @@ def verify_contract(contract, want_smt_sample=True, log=None, shard=()):
                     verdict, m, dt2 = core.solve_cvc5(ob.pc, ob.goal, contract.solver_timeout_ms)
                     dt += dt2
                     if verdict != "unknown":
-                        res.by_cvc5 = getattr(res, "by_cvc5", 0) + 1
+                        res.by_cvc5 += 1
                 if verdict == "unknown":
                     verdict, m, dt2 = core.refute_small(ob.pc, ob.goal, ex.lengths)
                     dt += dt2
@@ -301,6 +303,7 @@ def verify_contract(contract, want_smt_sample=True, log=None, shard=()):
                     verdict, m, dt2 = core.solve(ob.pc, ob.goal, contract.solver_timeout_ms, seed=7)
                     dt += dt2
                 res.time += dt
+                res.tmax = max(res.tmax, dt)
                 if verdict == "unsat":
                     # vacuity: a contradictory path condition proves everything
                     if path_sat is None:
